@@ -22,6 +22,8 @@
 //       cancel_us: -1 never; -2 cancel before any job is added; n>=0: n us after every job reported processStarted;
 //                  n+m: as n, and the queue is destroyed m us after cancelAllJobs() returned WITHOUT waiting for the
 //                  completion callbacks first (the destructor has to get the children killed and reaped by itself);
+//                  (otherwise the driver waits up to 40 s for every completion callback; if one is missing the answer ends
+//                  with hung=1 and the children's process groups are SIGKILLed so that the queue can be destroyed)
 //                  the answer then ends with destroy_ms=<time from cancelAllJobs() returning to the destructor returning>
 //       base: "environ" (pass nullptr) or a list field of raw "K=V" entries
 //       job = <inherit><control><interruptible>:<reqenv>:<argv>      reqenv = khex=vhex;... or "."   argv = list field
@@ -306,8 +308,9 @@ static uint64_t fnv1a(const std::string& s) {
 static void onStormSignal(int) {}
 
 static long gDestroyMs = -1;
+static int gHung = 0;
 static void runProcs(ProcScenario& sc, int lanes, int cancelUs, const char* const* base, bool serial = false, int stormUs = -1, int destroyUs = -1) {
-  gDestroyMs = -1;
+  gDestroyMs = -1; gHung = 0;
   ExecutionQueue* q = serial ? createSerialQueue(sc, base).release()
                              : createLaneBasedExecutionQueue(sc, lanes, SchedulerAlgorithm::FIFO, getDefaultQualityOfService(), base);
   std::atomic<bool> stormStop{false};
@@ -363,7 +366,14 @@ static void runProcs(ProcScenario& sc, int lanes, int cancelUs, const char* cons
     return;
   }
   { std::unique_lock<std::mutex> lk(sc.mu);
-    sc.cv.wait_for(lk, std::chrono::seconds(120), [&] { return sc.nDone >= (int)n; }); }
+    bool all = sc.cv.wait_for(lk, std::chrono::seconds(40), [&] { return sc.nDone >= (int)n; });
+    if (!all) {
+      // some launch never completed: report it (hung=1) and unwind by killing the children's process groups,
+      // otherwise the destructor below would block for ever
+      gHung = 1;
+      for (auto& j : sc.jobs) if (j->cb.load() == 0 && j->pid > 1) ::kill(-(pid_t)j->pid, SIGKILL);
+      sc.cv.wait_for(lk, std::chrono::seconds(20), [&] { return sc.nDone >= (int)n; });
+    } }
   if (storm.joinable()) { stormStop = true; storm.join(); }
   delete q;
 }
@@ -427,6 +437,7 @@ static std::string runProcCmd(const SV& a0) {
   for (size_t i = 0; i < sc.jobs.size(); i++) { if (i) out += " | "; out += showProc(i, *sc.jobs[i]); }
   out += " | elapsed_ms=" + std::to_string(ms);
   if (gDestroyMs >= 0) out += " | destroy_ms=" + std::to_string(gDestroyMs);
+  if (gHung) out += " | hung=1";
   return out;
 }
 
